@@ -52,6 +52,7 @@ from .packet import (
     push_quic_transport_parameters,
 )
 from .packet_builder import QuicDeliveryState, QuicPacketBuilder, QuicPacketBuilderStop
+from .rangeset import RangeSet
 from .recovery import QuicPacketRecovery, QuicPacketSpace
 from .stream import FinalSizeError, QuicStream, StreamFinishedError
 
@@ -3301,14 +3302,22 @@ class QuicConnection:
             handler=self._on_ack_delivery,
             handler_args=(space, space.largest_received_packet),
         )
-        ranges = push_ack_frame(buf, space.ack_queue, ack_delay_encoded)
+        # Only the most recent ranges are reported if they do not all fit, we
+        # keep one byte for the ACK-of-ACK trigger below.
+        ranges = push_ack_frame(
+            buf,
+            space.ack_queue,
+            ack_delay_encoded,
+            max_size=builder.remaining_buffer_space - 1,
+        )
         space.ack_at = None
 
         # log frame
         if self._quic_logger is not None:
             builder.quic_logger_frames.append(
                 self._quic_logger.encode_ack_frame(
-                    ranges=space.ack_queue, delay=ack_delay
+                    ranges=RangeSet(space.ack_queue[len(space.ack_queue) - ranges :]),
+                    delay=ack_delay,
                 )
             )
 
